@@ -37,7 +37,26 @@ func c20key(ue int, salt byte) [16]byte {
 	return k
 }
 
+// c20ops: the 21 single operations followed by two-operation sequences (one thread performs both on its UE: state
+// that the first leaves behind - a cache entry, a pooled buffer, a counter - meets the second and the other thread).
 func c20ops() []c20op {
+	base := c20single()
+	byName := map[string]c20op{}
+	for _, o := range base {
+		byName[o.name] = o
+	}
+	for _, pr := range c20sequences {
+		a, b := byName[pr[0]], byName[pr[1]]
+		base = append(base, c20op{pr[0] + " ; " + pr[1], func(ue int) string { return a.run(ue) + " ; " + b.run(ue) }})
+	}
+	return base
+}
+
+var c20sequences = [][2]string{{"NEA1", "NIA1"}, {"NIA1(300 octets)", "NEA1(300 octets)"}, {"NEA2", "NIA2"}, {"NGAP-encode-decode", "NGAP builders"}, {"NAS-plain-codec", "NAS constructors"},
+	{"DeriveRESstarAndSetKey(OP only)", "DeriveRESstarAndSetKey"}, {"Milenage+KDF", "DeriveRESstarAndSetKey(OP only)"}, {"SUCI+CreateUE+capability", "identifier conversions"},
+	{"NASEncode(NIA1,NEA1)", "NASDecode(NIA1,NEA1)"}, {"NASEncode(NIA2,NEA2)", "NASDecode(NIA2,NEA0)"}, {"NAS constructors", "NASEncode(NIA2,NEA2)"}}
+
+func c20single() []c20op {
 	msg := func(ue, n int) []byte { return pattern(3+ue, n) }
 	return []c20op{
 		{"NEA1", func(ue int) string {
